@@ -157,28 +157,45 @@ WCPair(name) == NtName([base |-> WC[NtOf(name).base], role |-> SwapRole(NtOf(nam
 Strand(i) == LET base == IF i.circ THEN IgCircular(i.names) ELSE Linear(i.names)
              IN IF i.tag = 0 THEN base
                 ELSE [base EXCEPT !.edges = (@ \ {Edge(i.tag, i.tag + 1, "")}) \cup {Edge(i.tag, i.tag + 1, "x")}]
-\* residue n+k is the pair of residue n+1-k; edge (n+k, n+k+1) carries the label of (n-k, n+1-k);
-\* the closing edge (1, n) of a circular strand gives the closing edge (n+1, 2n)
-Complement(s) ==
-  LET n == s.n IN
-  [n |-> 2 * n,
-   name |-> [r \in 1..(2 * n) |-> IF r <= n THEN s.name[r] ELSE WCPair(s.name[2 * n + 1 - r])],
-   inst |-> [r \in 1..(2 * n) |-> 0], lab |-> [r \in 1..(2 * n) |-> {}],
-   edges |-> s.edges
-             \cup {Edge(n + x, n + x + 1, LabelOf(s.edges, n - x, n + 1 - x)) : x \in {y \in 1..(n - 1) : HasEdge(s.edges, n - y, n + 1 - y)}}
-             \cup (IF n >= 3 /\ HasEdge(s.edges, 1, n) THEN {Edge(n + 1, 2 * n, LabelOf(s.edges, 1, n))} ELSE {})]
-\* the same thing said differently: the second strand is the mirror image r -> 2n+1-r of the first
+\* Completion is stated on residue ids (node keys do not occur): the strand that is completed is the one that ends at the
+\* last residue N of the molecule x - the longest run f, f+1, ..., N of consecutively bonded residues (n = N - f + 1 residues).
+\* Residue N+k is the pair of residue N+1-k; edge (N+k, N+k+1) carries the label of (N-k, N+1-k); the closing edge (f, N) of a
+\* ring gives the closing edge (N+1, N+n); everything that was there stays as it is. For a single strand f = 1, N = n.
+\* Residue ids are relative to the first residue id of the input (absolute id = inp.first - 1 + r).
+LastStartDecl(x) == CHOOSE f \in 1..x.n : /\ \A r \in f..(x.n - 1) : HasEdge(x.edges, r, r + 1)
+                                          /\ (f = 1 \/ ~HasEdge(x.edges, f - 1, f))
+\* the same, cheap to evaluate on long strands (trace validation): one past the last residue not bonded to its successor
+LastStart(x) == LET bonded == {e.a : e \in {h \in x.edges : h.b = h.a + 1}}
+                    breaks == (1..(x.n - 1)) \ bonded
+                IN IF breaks = {} THEN 1 ELSE Largest(breaks) + 1
+Complement(x) ==
+  LET N == x.n
+      f == LastStart(x)
+      n == N - f + 1
+  IN [n |-> N + n,
+      name |-> [r \in 1..(N + n) |-> IF r <= N THEN x.name[r] ELSE WCPair(x.name[2 * N + 1 - r])],
+      inst |-> [r \in 1..(N + n) |-> IF r <= N THEN x.inst[r] ELSE 0],
+      lab |-> [r \in 1..(N + n) |-> IF r <= N THEN x.lab[r] ELSE {}],
+      edges |-> x.edges
+                \cup {Edge(N + y, N + y + 1, LabelOf(x.edges, N - y, N + 1 - y)) : y \in 1..(n - 1)}
+                \cup (IF n >= 3 /\ HasEdge(x.edges, f, N) THEN {Edge(N + 1, N + n, LabelOf(x.edges, f, N))} ELSE {})]
+\* the same thing said differently (single strand): the second strand is the mirror image r -> 2n+1-r of the first
 MirrorLaw(s) == Complement(s).edges = s.edges \cup {Edge(2 * s.n + 1 - e.b, 2 * s.n + 1 - e.a, e.l) : e \in s.edges}
-SecondStrand(x) == LET n == x.n \div 2 IN
-  [n |-> n, name |-> [r \in 1..n |-> x.name[n + r]], inst |-> [r \in 1..n |-> 0], lab |-> [r \in 1..n |-> {}],
-   edges |-> {Edge(e.a - n, e.b - n, e.l) : e \in {f \in x.edges : f.a > n}}]
-FirstStrand(x) == LET n == x.n \div 2 IN
-  [n |-> n, name |-> [r \in 1..n |-> x.name[r]], inst |-> [r \in 1..n |-> x.inst[r]], lab |-> [r \in 1..n |-> x.lab[r]],
-   edges |-> {e \in x.edges : e.b <= n}]
+\* residues lo..hi of x as a molecule of its own (renumbered from 1)
+Sub(x, lo, hi) == [n |-> hi - lo + 1, name |-> [r \in 1..(hi - lo + 1) |-> x.name[lo - 1 + r]],
+                   inst |-> [r \in 1..(hi - lo + 1) |-> x.inst[lo - 1 + r]], lab |-> [r \in 1..(hi - lo + 1) |-> x.lab[lo - 1 + r]],
+                   edges |-> {Edge(e.a - lo + 1, e.b - lo + 1, e.l) : e \in {f \in x.edges : f.a >= lo /\ f.b <= hi}}]
+SecondStrand(x) == Sub(x, x.n \div 2 + 1, x.n)
+FirstStrand(x) == Sub(x, 1, x.n \div 2)
+\* completing the added strand again recovers the first one: on a fresh copy of the added strand ...
 Involution(s) == SecondStrand(Complement(SecondStrand(Complement(s)))) = s
+\* ... and in place, on the molecule that already holds both strands (the third strand is a copy of the first)
+InPlaceInvolution(s) == LET y == Complement(Complement(s)) IN
+                        /\ y.n = 3 * s.n /\ Sub(y, 1, 2 * s.n) = Complement(s) /\ Sub(y, 2 * s.n + 1, 3 * s.n) = s
 Disconnected(x) == ~\E e \in x.edges : e.a <= x.n \div 2 /\ e.b > x.n \div 2
 Rejected(i) == \E r \in 1..Len(i.names) : ~KnownDNA(i.names[r])
-ExpDsDNA(i) == IF Rejected(i) THEN EmptyG ELSE Complement(Strand(i))
+ExpRounds(i, rounds) == IF rounds = 1 THEN Complement(Strand(i)) ELSE Complement(Complement(Strand(i)))
+ExpDsDNA(i) == IF Rejected(i) THEN EmptyG ELSE ExpRounds(i, 1)
 
 (* ------------------------------------------------------------------ *)
 (* P-layer: the expected result of an input                            *)
@@ -187,7 +204,7 @@ Expected(i) == CASE i.fam = "file"    -> [rej |-> FALSE, g |-> ExpFile(i), free 
                  [] i.fam = "seqlist" -> [rej |-> FALSE, g |-> ExpSeqList(i), free |-> {}]
                  [] i.fam = "genseq"  -> (LET x == ExpGenSeqFull(i) IN [rej |-> FALSE, g |-> x.g, free |-> x.free])
                  [] i.fam = "json"    -> [rej |-> FALSE, g |-> ExpJson(i), free |-> {}]
-                 [] i.fam = "dsdna"   -> [rej |-> Rejected(i), g |-> ExpDsDNA(i), free |-> {}]
+                 [] i.fam = "dsdna"   -> [rej |-> Rejected(i), g |-> ExpDsDNA(i), free |-> {}]     \* g: after the first completion
 \* equality of residue graphs except for the names the statement leaves open
 Matches(x, e) == /\ x.n = e.g.n /\ x.edges = e.g.edges /\ x.inst = e.g.inst /\ x.lab = e.g.lab
                  /\ \A r \in (1..x.n) \ e.free : x.name[r] = e.g.name[r]
@@ -341,35 +358,44 @@ BaseLibrary == [DA |-> "DT", DT |-> "DA", DG |-> "DC", DC |-> "DG",
                 DA5 |-> "DT3", DT5 |-> "DA3", DG5 |-> "DC3", DC5 |-> "DG3",
                 DA3 |-> "DT5", DT3 |-> "DA5", DG3 |-> "DC5", DC3 |-> (IF "PairTable" \in Dev THEN "DG3" ELSE "DG5")]
 Lookup(nm) == IF "TermNoSwap" \in Dev THEN NtName([base |-> WC[NtOf(nm).base], role |-> NtOf(nm).role]) ELSE BaseLibrary[nm]
+\* one call of complement_dsDNA = CStart, CStep ..., on the input strand (round 1) and, if inp.rounds = 2, once more in place
+\* on the molecule that now holds both strands (round 2)
 CStart ==
-  /\ pc = "cstart"
-  /\ LET s == Strand(inp) n == s.n IN
-     IF s.name[n] \notin DOMAIN BaseLibrary
-     THEN /\ pc' = "rejected" /\ g' = s /\ aux' = aux
-     ELSE /\ g' = AddNode(s, Lookup(s.name[n]), 0, {})
-          /\ aux' = [cur |-> n, corr |-> [x \in 1..n |-> IF x = n THEN n + 1 ELSE 0]]
-          /\ pc' = "cwalk"
+  /\ pc \in {"cstart", "cstart2"}
+  /\ LET x == IF pc = "cstart" THEN Strand(inp) ELSE g
+         N == x.n
+         \* deviation StartByKey (finding F35 dsdna-start-by-node-key, repaired): the walk starts at the residue with the largest node key
+         start == IF "StartByKey" \in Dev /\ pc = "cstart" THEN CHOOSE r \in 1..N : \A q \in 1..N : inp.keys[q] <= inp.keys[r] ELSE N
+     IN IF x.name[start] \notin DOMAIN BaseLibrary
+        THEN /\ pc' = "rejected" /\ g' = x /\ aux' = aux
+        ELSE /\ g' = AddNode(x, Lookup(x.name[start]), 0, {})
+             /\ aux' = [cur |-> start, corr |-> [[r \in 1..N |-> 0] EXCEPT ![start] = N + 1], top |-> start, n0 |-> N,
+                        round |-> IF pc = "cstart" THEN 1 ELSE 2, base |-> x]
+             /\ pc' = "cwalk"
   /\ last' = "CStart" /\ UNCHANGED <<inp, k, c, mons>>
 CStep ==
   /\ pc = "cwalk"
-  /\ LET n == Len(inp.names)
-         cur == aux.cur
+  /\ LET cur == aux.cur
+         top == aux.top
          nxt == IF "Direction" \in Dev THEN cur + 1 ELSE cur - 1
          lo == IF nxt < cur THEN nxt ELSE cur
          hi == IF nxt < cur THEN cur ELSE nxt
-     IN IF nxt \in 1..n /\ HasEdge(g.edges, lo, hi)
+         fin == IF aux.round < inp.rounds THEN "cstart2" ELSE "done"
+     IN IF nxt \in 1..aux.n0 /\ HasEdge(g.edges, lo, hi)
         THEN IF g.name[nxt] \notin DOMAIN BaseLibrary
              THEN pc' = "rejected" /\ UNCHANGED <<g, aux>>
              ELSE /\ g' = AddNode(g, Lookup(g.name[nxt]), 0,
                                   {Edge(aux.corr[cur], g.n + 1, IF "NoLabelCopy" \in Dev THEN "" ELSE LabelOf(g.edges, lo, hi))})
-                  /\ aux' = [cur |-> nxt, corr |-> [aux.corr EXCEPT ![nxt] = g.n + 1]]
+                  /\ aux' = [aux EXCEPT !.cur = nxt, !.corr[nxt] = g.n + 1]
                   /\ pc' = "cwalk"
-        ELSE IF cur # n /\ cur < n /\ HasEdge(g.edges, cur, n) /\ ~("Direction" \in Dev)
-             THEN \* back at the start of a ring: close the second strand
-                  /\ g' = [g EXCEPT !.edges = @ \cup {Edge(aux.corr[cur], aux.corr[n],
-                                                          IF "NoLabelCopy" \in Dev THEN "" ELSE LabelOf(g.edges, cur, n))}]
-                  /\ aux' = aux /\ pc' = "done"
-             ELSE pc' = "done" /\ UNCHANGED <<g, aux>>
+        ELSE IF cur < top /\ HasEdge(g.edges, cur, top) /\ ~("Direction" \in Dev)
+                \* deviation WalkToResid1: the 5' end is recognised by its absolute residue id 1
+                /\ ("WalkToResid1" \in Dev => inp.first - 1 + cur = 1)
+             THEN \* back at the start of a ring: close the new strand
+                  /\ g' = [g EXCEPT !.edges = @ \cup {Edge(aux.corr[cur], aux.corr[top],
+                                                          IF "NoLabelCopy" \in Dev THEN "" ELSE LabelOf(g.edges, cur, top))}]
+                  /\ aux' = aux /\ pc' = fin
+             ELSE pc' = fin /\ UNCHANGED <<g, aux>>
   /\ last' = "CStep" /\ UNCHANGED <<inp, k, c, mons>>
 
 (* ------------------------------------------------------------------ *)
@@ -388,7 +414,9 @@ Next == ReadTitle \/ ReadLine \/ EndLines \/ Close \/ AddMonomer \/ NextBlock
 (* ------------------------------------------------------------------ *)
 Shape == WellFormed(g)
 \* the builder's final graph is the specified graph; a strand is rejected exactly when it holds an unknown name
-Final == /\ (pc = "done" => LET e == Expected(inp) IN ~e.rej /\ Matches(g, e))
+Final == /\ (pc = "done" => LET e == Expected(inp) IN
+                               ~e.rej /\ (IF inp.fam = "dsdna" THEN g = ExpRounds(inp, inp.rounds) ELSE Matches(g, e)))
+         /\ (pc = "cstart2" => g = ExpRounds(inp, 1))
          /\ (pc = "rejected" => Expected(inp).rej)
 \* residues are numbered consecutively while the graph grows: a step never renumbers or renames an existing
 \* residue (except the explicit renaming steps) and never removes an edge
@@ -399,12 +427,10 @@ Grows == [][ (last' \in {"AddMonomer", "AddMacro", "AddConnect", "Label", "CStep
 \* gen_seq: what is written is what was built, and reading it back gives the same labelled graph
 RoundTrip == /\ (inp.fam = "genseq" /\ pc = "read" => ReadJson(aux) = g)
              /\ (inp.fam = "genseq" /\ pc = "done" => g = ReadJson(aux) /\ JsonRoundTrip(g))
-\* C19 along the way: the first strand is never touched and the strands stay disconnected
-OrigKept == (inp.fam = "dsdna" /\ pc \in {"cwalk", "done"}) =>
-               LET s == Strand(inp) IN
-               /\ \A r \in 1..s.n : g.name[r] = s.name[r]
-               /\ {e \in g.edges : e.b <= s.n} = s.edges
-               /\ ~\E e \in g.edges : e.a <= s.n /\ e.b > s.n
+\* C19 along the way: what was there when a completion started is never touched, and the new strand is never bonded to it
+OrigKept == (inp.fam = "dsdna" /\ pc \in {"cwalk", "cstart2", "done"}) =>
+               /\ Sub(g, 1, aux.n0) = aux.base
+               /\ ~\E e \in g.edges : e.a <= aux.n0 /\ e.b > aux.n0
 \* laws of the P-layer itself (evaluated once per input, when its run has finished)
 Laws == (pc \in {"done", "rejected"}) =>
           /\ (inp.fam = "dsdna" /\ ~Rejected(inp) =>
@@ -412,7 +438,8 @@ Laws == (pc \in {"done", "rejected"}) =>
                 /\ WellFormed(x) /\ x.n = 2 * s.n
                 /\ FirstStrand(x) = s /\ Disconnected(x)
                 /\ MirrorLaw(s)
-                /\ Involution(s)
+                /\ Involution(s) /\ InPlaceInvolution(s)
+                /\ LastStart(s) = LastStartDecl(s) /\ LastStart(x) = LastStartDecl(x)
                 /\ \A r \in 1..s.n : KnownDNA(x.name[s.n + r]) /\ WCPair(WCPair(s.name[r])) = s.name[r])
           /\ (inp.fam = "dsdna" => \A nm \in DOMAIN BaseLibrary : KnownDNA(nm) /\ BaseLibrary[nm] = WCPair(nm))
           /\ (inp.fam = "dsdna" => \A nt \in Nts : NtName(nt) \in DOMAIN BaseLibrary)
